@@ -13,7 +13,7 @@ pub fn spec(tier: Tier) -> RunSpec {
     super::base_spec(
         8,
         "generated document trees (G-TREE: 1-5 ancestor levels, nested directories, symlinks inside and to owner-designated outside targets; uniquely marked secrets planted at every ancestor level \
-as plain file, index.html and page-k.html, in sibling directories whose names extend the root's name, and next to an owner-linked outside directory) x targets from a grammar \
+as plain file, index.html and page-k.html, in sibling directories whose names extend the root's name, and next to an owner-linked outside directory; sibling files named root + '.bak' / '-private.txt' / '.html') x targets from a grammar (6 % written without the leading slash, among them what a sibling's name has after the root's name) \
 (prefix in {'', '/', '//', '@h', 'h:80', 'http://h', 'http://h:80'} + segments from {'..', '.', '', tree directory paths, tree names, secret names, ancestor names, %2e%2e, %2E%2E, .%2e, %2e., ..%2f, ..., ..;, ..\\\\} \
 + optional trailing slash + optional ?q / #f), biased so that half of the targets climb exactly to a level and end on a secret planted there, a share of the targets spell the absolute filesystem path of a secret behind zero or more empty / dot segments and every prefix ('/<abs>', '//<abs>', '/.//<abs>', 'http://h/<abs>'), separators between segments may be spelt %2F / %2f / %5C / backslash / %252F, x optional Range header x both entry points. \
 Oracle: (a) the response contains no 12-byte window of any secret's content; (b) origin-form targets whose running depth goes below zero are answered with status >= 400. \
@@ -42,7 +42,10 @@ pub struct Target { pub prefix: u8, pub segs: Vec<Seg>, pub trailing_slash: bool
     /// bit i set: the i-th separator between segments is spelt as an encoded separator (ENC_SEPS[enc_kind]) instead of '/'
     #[serde(default)] pub enc_sep: u16, #[serde(default)] pub enc_kind: u8,
     /// sent to the real binary over loopback (production entry only) instead of Server::process on the mock transport
-    #[serde(default)] pub binary: bool }
+    #[serde(default)] pub binary: bool,
+    /// the target is written without prefix and without the leading slash: whatever it starts with follows the served directory's name directly
+    /// if a lookup glues the two together
+    #[serde(default)] pub glued: bool }
 pub const ENC_SEPS: [&str; 6] = ["%2F", "%2f", "%5C", "\\", "%2F", "%252F"];
 
 #[derive(Clone, Debug, Serialize, Deserialize)]
@@ -103,10 +106,15 @@ fn target_strategy(levels: usize, has_outside_links: bool) -> impl Strategy<Valu
     let absolute = (proptest::collection::vec(prop_oneof![3 => Just(Seg::Empty), 1 => Just(Seg::Dot)], 0..3), any::<u16>()).prop_map(|(mut lead, k)| { lead.push(Seg::Lit(format!("\u{1}ABSSECRET{}", k))); lead });
     // shape D: a plain request for one of the tree's own symbolic links (shadow secrets wait where its text lands when resolved from the wrong directory)
     let link_file = any::<u16>().prop_map(|k| vec![Seg::Lit(format!("\u{1}LINKFILE{}", k))]);
-    let segs = if has_outside_links { prop_oneof![5 => climb, 2 => through_link, 3 => random, 2 => absolute, 1 => link_file].boxed() } else { prop_oneof![6 => climb, 4 => random, 2 => absolute, 1 => link_file].boxed() };
+    // shape E: what a sibling's name has after the root's name, then a secret inside that sibling ("-sibling/secret-s.txt", "x/index.html", ".bak"): sent without
+    // the leading slash it reaches the sibling if a lookup appends the target to the served directory's name
+    let glued_sibling = (0u8..10).prop_map(|k| vec![Seg::Lit(format!("\u{1}GLUED{}", k))]);
+    let segs = if has_outside_links { prop_oneof![5 => climb, 2 => through_link, 3 => random, 2 => absolute, 1 => link_file, 1 => glued_sibling].boxed() } else { prop_oneof![6 => climb, 4 => random, 2 => absolute, 1 => link_file, 1 => glued_sibling].boxed() };
     let enc = prop_oneof![7 => Just(0u16), 2 => any::<u16>(), 1 => Just(u16::MAX)];
-    (0u8..16, segs, proptest::bool::weighted(0.2), 0u8..6, range_strategy(), proptest::bool::weighted(0.3), enc, 0u8..6, proptest::bool::weighted(0.25))
-        .prop_map(|(prefix, segs, trailing_slash, suffix, range, legacy, enc_sep, enc_kind, binary)| Target { prefix, segs, trailing_slash, suffix, range, legacy, enc_sep, enc_kind, binary: binary && !legacy })
+    (0u8..16, segs, proptest::bool::weighted(0.2), 0u8..6, range_strategy(), proptest::bool::weighted(0.3), enc, 0u8..6, proptest::bool::weighted(0.25), proptest::bool::weighted(0.06))
+        .prop_map(|(prefix, segs, trailing_slash, suffix, range, legacy, enc_sep, enc_kind, binary, glued)| {
+            let is_glued_shape = segs.iter().any(|s| matches!(s, Seg::Lit(l) if l.starts_with("\u{1}GLUED")));
+            Target { prefix, segs, trailing_slash, suffix, range, legacy, enc_sep: if is_glued_shape { 0 } else { enc_sep }, enc_kind, binary: binary && !legacy, glued: glued || is_glued_shape } })
 }
 
 /// Render the target text against a materialised tree.
@@ -177,6 +185,11 @@ pub fn render(tree: &Tree, t: &Target) -> String {
                     let i: u16 = rest.parse().unwrap_or(0);
                     let sct = &tree.secrets[pick_idx(i, tree.secrets.len())];
                     for c in sct.abs.to_string_lossy().split('/').filter(|c| !c.is_empty()) { parts.push(c.to_string()); }
+                } else if let Some(rest) = l.strip_prefix("\u{1}GLUED") {
+                    let k: usize = rest.parse().unwrap_or(0);
+                    let shapes: [(&str, &str); 10] = [("-sibling", "secret-s.txt"), ("-sibling", "index.html"), ("-sibling", ""), ("x", "secret-s.txt"), ("x", "index.html"), ("x", ""), (".bak", ""), ("-private.txt", ""), (".html", ""), ("-sibling", "index")];
+                    let (a, b) = shapes[k % shapes.len()];
+                    parts.push(a.to_string()); if !b.is_empty() { parts.push(b.to_string()); }
                 } else if let Some(rest) = l.strip_prefix("\u{1}LINKFILE") {
                     // a plain request for a symbolic link inside the tree (to a file inside the root): whatever it resolves to must not be a secret
                     let i: u16 = rest.parse().unwrap_or(0);
@@ -195,8 +208,7 @@ pub fn render(tree: &Tree, t: &Target) -> String {
     }
     if let Some(total) = climb { for _ in 0..total { parts.push(up_spelling.clone()); } }
     let mut s = String::new();
-    s.push_str(PREFIXES[t.prefix as usize % PREFIXES.len()]);
-    s.push('/');
+    if !t.glued { s.push_str(PREFIXES[t.prefix as usize % PREFIXES.len()]); s.push('/'); }
     for (i, part) in parts.iter().enumerate() {
         if i > 0 { if i <= 16 && (t.enc_sep >> (i - 1)) & 1 == 1 { s.push_str(ENC_SEPS[t.enc_kind as usize % ENC_SEPS.len()]); } else { s.push('/'); } }
         s.push_str(part);
